@@ -193,7 +193,7 @@ namespace RSocketModel.Engine
 later connection loss deliver nothing -/
 example : (run (init 1) [.requestStream [1] 5 true, .subCancel 0,
     .recv { ty := .payload, sid := 1, data := [7], next := true } .ok, .lost]).2 =
-    [[.created 0 1, .onSubscribe 0, .send { ty := .requestStream, sid := 1, n := 5, data := [1] }],
+    [[.created 0 1, .send { ty := .requestStream, sid := 1, n := 5, data := [1] }, .onSubscribe 0],
      [.send (mkCancel 1)], [.drop 1], [.onClose]] := by decide +kernel
 
 /-- a server whose publisher is producing receives CANCEL -/
